@@ -206,6 +206,9 @@ Proof.
   - dstmt.
   - dstmt.
   - (* SCall *) apply (exec_call_inv fns f HP) in H; [|now apply depth_ne]. now rewrite H.
+  - dstmt.
+  - dstmt.
+  - dstmt.
 Qed.
 
 Lemma step_dinv : dinv (step fns f).
